@@ -232,8 +232,11 @@ def run(tier, seed):
     lists = [list(p) for k in range(n + 1) for p in itertools.product(DOM, repeat=k)]
     # permutations/powerset of length-5 lists are still small (120 / 32 members)
     explore.pmap(_monad_shard, explore.chunks(lists, 64), rep, seed)
-    m = 2 if tier == "quick" else 3
-    small = [list(p) for k in range(m + 1) for p in itertools.product(DOM, repeat=k)]
+    m = 3
+    dom2 = (-1, 0, 2) if tier == "quick" else DOM
+    small = [list(p) for k in range(m + 1) for p in itertools.product(dom2, repeat=k)]
+    if tier == "thorough":
+        small += [list(p) for p in itertools.product((0, 3), repeat=4)]
     pairs = [(a, b) for a in small for b in small]
     explore.pmap(_dyad_shard, explore.chunks(pairs, 64), rep, seed)
     # strings
